@@ -26,7 +26,9 @@ RULE = ("histories of newGlyph/insertGlyph/delete/rename in 1-4 layers, through 
         "+ glyphOrder/lib assignments, newLayer, delLayer (default layer included), layer renaming, layerOrder assignment, "
         "defaultLayer assignment, layer.holdNotifications()/releaseHeldNotifications() around blocks of such operations "
         "(nested, overlapping on several layers, with Layer.insertGlyph's own bracket inside), layer.disableNotifications()/"
-        "enableNotifications(), font.holdNotifications()/releaseHeldNotifications(), save-and-reopen, over fonts that are new, "
+        "enableNotifications(), font.holdNotifications()/releaseHeldNotifications(), glyph.holdNotifications() around a chain "
+        "of renamings of that glyph onto unused names (judged at the glyph's release as the renaming first -> last), "
+        "save-and-reopen, over fonts that are new, "
         "loaded from a generated UFO 3/UFO 2, or deserialised, with empty, partial, complete, superset, disjoint or "
         "duplicate-carrying start orders; after every op font.glyphOrder, font.lib.get('public.glyphOrder'), every layer's "
         "key set, hold and disable state, the default layer and font.keys() are compared with the model; non-trivial = at "
@@ -172,6 +174,11 @@ class _Track(object):
             self.layers[op[1]].add(op[3])
             self.seen.add(op[3])
             self.lastren[op[1]] = op[3]
+        elif k == "heldRename" and op[1] in self.layers and op[2] in self.layers[op[1]]:
+            self.layers[op[1]].discard(op[2])
+            self.layers[op[1]].add(op[3][-1])
+            self.seen |= set(op[3])
+            self.lastren[op[1]] = op[3][-1]
         elif k == "newLayer":
             self.layers.setdefault(op[1], set())
         elif k == "delLayer":
@@ -286,6 +293,21 @@ def _gen_layer_op(rng, tr, pool):
     return ["fontDelGlyph", rng.choice(pool)]
 
 
+def _gen_held_rename(rng, tr, pool):
+    """the GLYPH's own notifications held around a chain of renamings: glyph.holdNotifications(); glyph.name = n1;
+    glyph.name = n2; …; glyph.releaseHeldNotifications() - with names that nothing has or lists"""
+    full = [n for n in sorted(tr.layers) if tr.layers[n]]
+    if not full:
+        return None
+    L = rng.choice(full)
+    fresh = [n for n in POOL + GHOSTS + ["f1", "f2", "f3", "f4"] if n not in tr.seen and n not in tr.union()]
+    if len(fresh) < 2:
+        return None
+    rng.shuffle(fresh)
+    old = rng.choice(sorted(tr.layers[L])) if rng.random() < 0.95 else rng.choice(pool)
+    return ["heldRename", L, old, fresh[:rng.randint(1, min(3, len(fresh)))]]
+
+
 def _gen_held_glyph_op(rng, tr, pool, L):
     """a glyph operation inside a held block on layer L: few names, so that notifications repeat (are coalesced)
     and names are deleted, re-created and renamed back and forth before anything is delivered"""
@@ -303,6 +325,11 @@ def _gen_held_glyph_op(rng, tr, pool, L):
             return ["delGlyph", L, rng.choice(cands), "layer"]
         return ["delGlyph", L, rng.choice(small), "layer"]
     cands = [x for x in here if x in small] or here
+    if here and rng.random() < 0.12:
+        fresh = [x for x in POOL + GHOSTS + ["f1", "f2", "f3", "f4"] if x not in tr.seen and x not in tr.union()]
+        if len(fresh) >= 2:
+            rng.shuffle(fresh)
+            return ["heldRename", L, rng.choice(here), fresh[:rng.randint(2, min(3, len(fresh)))]]
     last = tr.lastren.get(L)
     if last in here and rng.random() < 0.4:
         # go on renaming the glyph that was renamed last: a chain a -> b -> c inside the hold
@@ -333,6 +360,10 @@ def _gen_op(rng, tr, pool, origin):
             return _gen_held_glyph_op(rng, tr, pool, rng.choice(heldnow))
     if rng.random() < 0.13:
         return _gen_layer_op(rng, tr, pool)
+    if rng.random() < 0.07:
+        op = _gen_held_rename(rng, tr, pool)
+        if op is not None:
+            return op
     r = rng.random()
     L = _pick_layer(rng, tr, nonempty=(0.32 <= r < 0.82))
     here = sorted(tr.layers.get(L, ()))
@@ -621,6 +652,8 @@ def enc_op(op):
         return [Atom(k), _lib(op[1])]
     if k in ("newLayer", "delLayer", "setDefault", "holdLayer", "releaseLayer", "disableLayer", "enableLayer"):
         return [Atom(k), op[1]]
+    if k == "heldRename":
+        return [Atom("renameChain"), op[1], op[2], list(op[3])]
     if k == "renameLayer":
         return [Atom(k), op[1], op[2]]
     if k == "setLayerOrder":
@@ -791,6 +824,17 @@ class World(object):
             if new in layer._glyphs:
                 self.keep.append(layer._glyphs[new])
             glyph.name = new
+        elif k == "heldRename":
+            _, L, old, chain = op
+            layer = font.layers[L]
+            glyph = layer[old]
+            self.keep.append(glyph)
+            glyph.holdNotifications(note="C12 harness")
+            try:
+                for n in chain:
+                    glyph.name = n
+            finally:
+                glyph.releaseHeldNotifications()
         elif k == "setOrder":
             font.glyphOrder = None if op[1] is None else list(op[1])
         elif k == "setLib":
@@ -1011,6 +1055,16 @@ def oracle(case, trace):
             continue
 
         ok = not err
+        links = None
+        if k == "heldRename":
+            # the glyph's own notifications were held around a chain of renamings (names nothing has or lists): at the
+            # glyph's release the layer and the font hear of old -> n1 -> … -> last; judged as the renaming old -> last
+            names = [op[2]] + list(op[3])
+            links = list(zip(names[:-1], names[1:]))
+            k = "rename"
+            op = ["rename", op[1], op[2], op[3][-1]]
+        elif k == "rename":
+            links = [(op[2], op[3])]
         L = op[1] if k in ("newGlyph", "insertGlyph", "delGlyph", "rename") else None
         st = _state(layb, L) if L is not None else None
         held = bool(st and st[0])
@@ -1026,6 +1080,7 @@ def oracle(case, trace):
             for n, b in blocks.items():
                 if not (n == L and glyphop and held and not disabled):
                     b.other |= {x for x in op[2:4] if isinstance(x, str)}
+                    b.other |= {x for lk in (links or []) for x in lk}
         if glyphop and held and not disabled and L in blocks:
             b = blocks[L]
             if k in ("newGlyph", "insertGlyph"):
@@ -1033,7 +1088,8 @@ def oracle(case, trace):
             elif k == "delGlyph":
                 b.notes.append(("deleted", op[2]))
             else:
-                b.notes.append(("renamed", op[2], op[3]))
+                for o_, n_ in links:
+                    b.notes.append(("renamed", o_, n_))
         if glyphop and disabled and L in blocks:
             blocks[L].disabled = True
         if ok and k == "holdLayer" and _state(layb, op[1]) and not _state(layb, op[1])[0]:
@@ -1058,7 +1114,7 @@ def oracle(case, trace):
         # which names may this operation touch ---------------------------------------------------
         touched = set()
         if glyphop and not held and not disabled:
-            touched = {x for x in op[2:4] if isinstance(x, str)} if k == "rename" else {op[2]}
+            touched = ({x for lk in links for x in lk} if k == "rename" else {op[2]})
         elif ok and k == "delLayer":
             touched = {g for l in layb if l[0] == op[1] for g in l[1]}   # the property says nothing here
         elif released is not None:
